@@ -219,20 +219,21 @@ Definition resize_sep m d c cast ishape oshape offs (x : list T) : list T :=
   sep_loop m d c cast 1 ishape oshape offs x.
 
 (* the same 1-d maps applied in the opposite axis order (last axis first), written for
-   the adjoint direction: [ishape]/[oshape] are the FORWARD operator's input/output
-   shapes, the argument has shape [oshape] and the result shape [ishape].  In exact
+   the way back: the argument has shape [oshape] and the result shape [ishape]
+   (for d = Adjoint these are the forward operator's output/input shapes; for
+   d = Forward it is e.g. the crop that undoes an extension).  In exact
    arithmetic the order of the axes does not matter (validated by the correspondence);
    this order makes  resize_sep_rev = transpose of resize_sep  a structural induction. *)
-Fixpoint sep_rev_loop (m : pmode) (c : T) (cast : bool) (outer : nat)
+Fixpoint sep_rev_loop (m : pmode) (d : direction) (c : T) (cast : bool) (outer : nat)
          (ishape oshape : list nat) (offs : list Z) (y : list T) : list T :=
   match ishape, oshape, offs with
   | n :: ish, n' :: osh, off :: offs' =>
-      along outer n' (prodn ish) n (resize1_tot m Adjoint c cast n off)
-            (sep_rev_loop m c cast (outer * n')%nat ish osh offs' y)
+      along outer n' (prodn ish) n (resize1_tot m d c cast n off)
+            (sep_rev_loop m d c cast (outer * n')%nat ish osh offs' y)
   | _, _, _ => y
   end.
-Definition resize_sep_rev m c cast ishape oshape offs (y : list T) : list T :=
-  sep_rev_loop m c cast 1 ishape oshape offs y.
+Definition resize_sep_rev m d c cast ishape oshape offs (y : list T) : list T :=
+  sep_rev_loop m d c cast 1 ishape oshape offs y.
 
 (* admissibility of a whole configuration: every axis in range and legal
    (for the adjoint direction the roles of the two shapes are exchanged) *)
